@@ -213,6 +213,20 @@ def gen(rng, tier):
                         nontrivial=False, theorem="ScteEnc.run_script / update_data vs the setter API"))
         out.append(Case("scte.build [ %s ] %s" % (hx(b), fmt_val(toggle_history(rng)[-3:])), kind="toggle-from-decoded",
                         theorem="C09_setter_getter"))
+    # which histories end in a `normal` state (hypothesis of C09_encode_canonical) is decided by the Coq predicate
+    # ScteNormalB.isnormal through modelexec: those are deciding cases whatever their kind; the others only tie the model
+    # to the code (setter laws hold for every state, but the bytes are outside the theorem)
+    idx = [i for i, c in enumerate(out) if c.line.startswith("scte.build ")]
+    rep = vlib.run_model(["scte.isnormal " + out[i].line.split(" ", 1)[1] for i in idx])
+    for i, r in zip(idx, rep):
+        c = out[i]
+        nrm = (r == "1")
+        if c.kind == "clean-history" and not nrm:
+            raise RuntimeError("a clean history is not normal: " + c.line[:300])
+        c.decides = nrm
+        c.nontrivial = nrm
+        if not nrm and not c.kind.startswith("wild"):
+            c.kind = c.kind + "-not-normal"
     # CRC transliteration
     for n in [0, 1, 2, 3, 4, 17, 100]:
         out.append(Case("scte.crc " + hx(L.g_bytes(rng, n)), kind="crc", theorem="C09_crc"))
